@@ -184,10 +184,16 @@ fn check_c10() {
             falsified("FreeWord::cmp", format!("a={:?} b={:?}", la, lb), format!("lt={} gt={} eq={} expected lt={}", lt, gt, eq, word_lt(&la, &lb)));
         }
     } }
-    for g in [-2isize, -1, 1, 2] { for a in &small {
+    // word times letter, both operand forms, the null letter 0 and a third generator included
+    for g in [-3isize, -2, -1, 0, 1, 2, 3] { for a in &small {
         let la = letters(a);
         let exp = reduce(&[la.clone(), vec![g]].concat());
-        if let Ok(p) = quiet(|| *a * g) { if letters(&p) != exp { falsified("FreeWord * isize", format!("{:?} * {}", la, g), format!("{:?} expected {:?}", letters(&p), exp)); } }
+        for (name, r) in [("&a * g", quiet(|| *a * g)), ("a * g", quiet(|| (*a).clone() * g))] {
+            match r {
+                Ok(p) => if letters(&p) != exp { falsified("Mul::mul (word times letter)", format!("{} with a={:?} g={}", name, la, g), format!("{:?} expected {:?}", letters(&p), exp)); },
+                Err(e) => falsified("Mul::mul (word times letter)", format!("{} with a={:?} g={}", name, la, g), format!("panic {}", e)),
+            }
+        }
     } }
 }
 
